@@ -1,6 +1,7 @@
 package rules
 
 import (
+	"go/types"
 	"go/token"
 	"strings"
 
@@ -83,6 +84,7 @@ func runC02(c *Ctx) {
 	c02PortSplit(c)
 	c02IPDispatch(c)
 	c02V4Label(c)
+	c02V4Scanner(c)
 }
 
 func safeSkeleton(b *skel.Builder, f *ssa.Function) (s string) {
@@ -919,4 +921,194 @@ func c02IPDispatch(c *Ctx) {
 	if n4 == 0 || n6 == 0 {
 		c.undecided("C02.ip.dispatch", f, "calls of the two family scanners", nil, sprintf("found %d IPv4 and %d IPv6 scanner calls", n4, n6))
 	}
+}
+
+// c02V4Scanner: isValidIPv4String touches its input only through
+// strings.Cut(_, ".") and isIPv4Label (checked), so its result is a function
+// of the number of '.'-separated fields and of which fields are valid labels.
+// The SSA is evaluated over that abstraction — every field count 1..7 and
+// every validity vector — and must accept exactly "four fields, all valid".
+// (Loops are bounded by the field count: each iteration consumes one Cut.)
+func c02V4Scanner(c *Ctx) {
+	c.L.Floor("C02.v4.scanner", 1)
+	f := c.fn("netutil", "isValidIPv4String")
+	if f == nil {
+		return
+	}
+	what := "accepts exactly the texts with four '.'-separated fields that are all isIPv4Label"
+	// abstract values
+	type av struct {
+		kind string // "rest", "label", "int", "bool", "tuple"
+		k    int    // rest: first remaining field; label: field index (-1: empty text)
+		i    int64
+		tup  []av
+	}
+	// structural precondition: strings are used only by Cut / isIPv4Label / phi / extract
+	okUse := true
+	core.EachInstr(f, func(in ssa.Instruction) {
+		call, ok := in.(*ssa.Call)
+		if !ok {
+			return
+		}
+		switch n := core.CalleeName(&call.Call); {
+		case n == "strings.Cut":
+			if sep, isK := core.ConstString(call.Call.Args[1]); !isK || sep != "." {
+				okUse = false
+			}
+		case call.Call.StaticCallee() != nil && call.Call.StaticCallee().Name() == "isIPv4Label":
+		default:
+			okUse = false
+		}
+	})
+	if !okUse {
+		c.undecided("C02.v4.scanner", f, what, nil, "the scanner uses its input through something other than strings.Cut(_, \".\") and isIPv4Label")
+		return
+	}
+	run := func(n int, valid []bool) (bool, string) {
+		env := map[ssa.Value]av{f.Params[0]: {kind: "rest", k: 0}}
+		var get func(v ssa.Value) (av, bool)
+		get = func(v ssa.Value) (av, bool) {
+			if x, ok := env[v]; ok {
+				return x, true
+			}
+			if k, ok := core.ConstInt(v); ok {
+				return av{kind: "int", i: k}, true
+			}
+			if b, ok := core.ConstBool(v); ok {
+				if b {
+					return av{kind: "bool", i: 1}, true
+				}
+				return av{kind: "bool", i: 0}, true
+			}
+			return av{}, false
+		}
+		b := f.Blocks[0]
+		var prev *ssa.BasicBlock
+		for steps := 0; steps < 400; steps++ {
+			// phis first, simultaneously
+			upd := map[ssa.Value]av{}
+			for _, in := range b.Instrs {
+				phi, ok := in.(*ssa.Phi)
+				if !ok {
+					break
+				}
+				for i, p := range b.Preds {
+					if p == prev {
+						x, ok := get(phi.Edges[i])
+						if !ok {
+							return false, "phi of an unsupported value"
+						}
+						upd[phi] = x
+					}
+				}
+			}
+			for k, v := range upd {
+				env[k] = v
+			}
+			for _, in := range b.Instrs {
+				switch x := in.(type) {
+				case *ssa.Phi, *ssa.DebugRef:
+				case *ssa.Call:
+					if core.CalleeName(&x.Call) == "strings.Cut" {
+						s, ok := get(x.Call.Args[0])
+						if !ok || s.kind != "rest" {
+							return false, "Cut of something that is not the input or a rest"
+						}
+						switch {
+						case s.k >= n: // nothing left: Cut("") = ("", "", false)
+							env[x] = av{kind: "tuple", tup: []av{{kind: "label", k: -1}, {kind: "rest", k: n}, {kind: "bool", i: 0}}}
+						case s.k == n-1: // last field: no dot found
+							env[x] = av{kind: "tuple", tup: []av{{kind: "label", k: s.k}, {kind: "rest", k: n}, {kind: "bool", i: 0}}}
+						default:
+							env[x] = av{kind: "tuple", tup: []av{{kind: "label", k: s.k}, {kind: "rest", k: s.k + 1}, {kind: "bool", i: 1}}}
+						}
+					} else {
+						l, ok := get(x.Call.Args[0])
+						if !ok || l.kind != "label" {
+							return false, "isIPv4Label of something that is not a field"
+						}
+						r := int64(0)
+						if l.k >= 0 && valid[l.k] {
+							r = 1
+						}
+						env[x] = av{kind: "bool", i: r}
+					}
+				case *ssa.Extract:
+					t, ok := get(x.Tuple)
+					if !ok || t.kind != "tuple" {
+						return false, "extract of an unsupported value"
+					}
+					env[x] = t.tup[x.Index]
+				case *ssa.BinOp:
+					a, ok1 := get(x.X)
+					bb, ok2 := get(x.Y)
+					if !ok1 || !ok2 || (a.kind != "int" && a.kind != "bool") || (bb.kind != "int" && bb.kind != "bool") {
+						return false, "arithmetic on an unsupported value: " + core.Describe(x)
+					}
+					r, ok := evalSmall(x, map[ssa.Value]int64{x.X: a.i, x.Y: bb.i}, 0)
+					if !ok {
+						return false, "unsupported operator in " + core.Describe(x)
+					}
+					kind := "int"
+					if _, isB := x.Type().Underlying().(*types.Basic); isB && x.Type().Underlying().(*types.Basic).Kind() == types.Bool {
+						kind = "bool"
+					}
+					env[x] = av{kind: kind, i: r}
+				case *ssa.UnOp:
+					a, ok := get(x.X)
+					if !ok || x.Op != token.NOT {
+						return false, "unsupported " + core.Describe(x)
+					}
+					env[x] = av{kind: "bool", i: 1 - a.i}
+				case *ssa.If:
+					cnd, ok := get(x.Cond)
+					if !ok {
+						return false, "branch on an unsupported value"
+					}
+					if cnd.i != 0 {
+						prev, b = b, b.Succs[0]
+					} else {
+						prev, b = b, b.Succs[1]
+					}
+				case *ssa.Jump:
+					prev, b = b, b.Succs[0]
+				case *ssa.Return:
+					r, ok := get(x.Results[0])
+					if !ok {
+						return false, "unsupported result"
+					}
+					return r.i != 0, ""
+				default:
+					return false, "unsupported instruction " + in.String()
+				}
+			}
+		}
+		return false, "the evaluation did not terminate within 400 blocks (fields " + sprintf("%d", n) + ")"
+	}
+	bad, undec := "", ""
+	cases := 0
+	for n := 1; n <= 7 && undec == ""; n++ {
+		for m := 0; m < 1<<uint(n); m++ {
+			valid := make([]bool, n)
+			all := true
+			for i := range valid {
+				valid[i] = m&(1<<uint(i)) != 0
+				all = all && valid[i]
+			}
+			got, why := run(n, valid)
+			if why != "" {
+				undec = why
+				break
+			}
+			cases++
+			if want := n == 4 && all; got != want && bad == "" {
+				bad = sprintf("with %d fields, validity %v: result %v, netip.ParseAddr's IPv4 parser gives %v", n, valid, got, want)
+			}
+		}
+	}
+	if undec != "" {
+		c.undecided("C02.v4.scanner", f, what, nil, undec)
+		return
+	}
+	c.check(bad == "", "C02.v4.scanner", f, what, nil, sprintf("%d (field count, validity vector) classes evaluated. %s", cases, bad))
 }
